@@ -594,6 +594,42 @@ def check_npz_bytes(ctx: Context, rep, rule: str) -> None:
                " lose trailing NUL bytes (b'ab\\0\\0' reads back as b'ab')")
 
 
+def check_npz_save(ctx: Context, rep, rule: str) -> None:
+    rep.rule(
+        rule,
+        "the npz writer saves exactly its per-attribute buffers "
+        "(np.savez[_compressed](file, **self._buffer)) and never chooses a "
+        "dtype itself (no dtype= argument, astype, np.empty/zeros/full in the "
+        "class): NumPy's promotion over ALL buffered values decides the "
+        "stored dtype, so no value is cast to the dtype of another example")
+    ci = ctx.repo.cls("sedpack.io.shard.shard_writer_np:ShardWriterNP")
+    close = ci.methods.get("close")
+    if close is None:
+        raise AnalysisError("ShardWriterNP.close missing")
+    saves = [c for c in close.calls() if ctx.names(close, c) & {
+        "numpy.savez", "numpy.savez_compressed", "numpy.save"}]
+    rep.ob(rule, bool(saves) and all(
+        any(k.arg is None and dotted(k.value) == "self._buffer"
+            for k in c.keywords) for c in saves),
+           loc=close.loc(saves[0]) if saves else close.loc(),
+           where=close.qualname,
+           construct="; ".join(short(c, 60) for c in saves) or "<no save>",
+           message="the buffers themselves are handed to NumPy's save")
+    for m in ci.methods.values():
+        for c in m.calls():
+            f = c.func
+            nm = f.attr if isinstance(f, ast.Attribute) else (
+                f.id if isinstance(f, ast.Name) else "")
+            typed = any(k.arg == "dtype" for k in c.keywords) or nm in (
+                "astype", "empty", "zeros", "ones", "full", "empty_like",
+                "zeros_like", "view")
+            if typed:
+                rep.ob(rule, False, loc=m.loc(c), where=m.qualname,
+                       construct=short(c, 80),
+                       message="the npz writer picks a dtype for stored "
+                       "values; later examples may be cast unsafely into it")
+
+
 def check_npz_reader(ctx: Context, rep, rule: str) -> None:
     rep.rule(
         rule,
@@ -639,6 +675,7 @@ def run(ctx: Context, rep) -> None:
     check_order(ctx, rep, "C01.order")
     check_tfrec(ctx, rep, "C01.tfrec")
     check_copy(ctx, rep, "C01.copy")
+    check_npz_save(ctx, rep, "C01.npz-save")
     check_npz_reader(ctx, rep, "C01.npz-reader")
     check_npz_bytes(ctx, rep, "C01.npz-bytes")
 
@@ -709,6 +746,9 @@ SELFTESTS = [
     dict(rule="C01.copy", name="npz-array-copy-twin", expect="silent", path=_NPW,
          old="        copies = {name: np.copy(value) for name, value in values.items()}\n",
          new="        copies = {name: np.array(value, copy=True) for name, value in values.items()}\n"),
+    dict(rule="C01.npz-save", name="npz-preallocate-first-dtype", expect="fire", path=_NPW,
+         old="                np.savez(str(self._shard_file), **self._buffer)  # type: ignore\n",
+         new="                np.savez(str(self._shard_file), **{k: np.array(v, dtype=np.asarray(v[0]).dtype) for k, v in self._buffer.items()})  # type: ignore\n"),
     dict(rule="C01.npz-reader", name="npz-skip-first", expect="fire",
          path="src/sedpack/io/npz/iterate_npz.py",
          old="        for i in range(elements):\n            yield {name: value[i] for name, value in shard_content.items()}\n\n    async def",
